@@ -126,6 +126,14 @@ CLAIMED.update({
             'DESIGN.md §3 C12'),
 })
 
+CLAIMED.update({
+    'C19': ('model_checking',
+            'CrossHair (symbolic strings) on the name-mangling kernels behind steps.Assembly: local->global->local round trip, no collision of mangled hidden names, a component sees only its own hidden variables; AutomatonStepper.init/step called at every product state of seeded synthesized implementations with enabledness decided by z3 on the exported action; two-component assemblies simulated and every recorded step evaluated on both exported actions',
+            'Partly reachable, scope as written: the string kernels are decided symbolically; stepper conformance is enumeration with a solver-made oracle (all <= 2^8 product states per implementation); assemblies are bounded simulations.',
+            'Trusted: CrossHair, z3, dd node accessors. Bounds: names over {a,b} of length <= 2 without underscores, hidden names of length <= 3; implementations from the C12 instance set; assemblies of an environment component and a Moore implementation for 12 (thorough 40) steps.',
+            'DESIGN.md §3 C19'),
+})
+
 NOT_APPLICABLE = {
     'C16': 'Parser/precedence/round-trip: PLY regex lexer + table-driven LALR driver over token sequences; no arithmetic or bit-level state for a solver to range over. CrossHair on lexyacc.Parser.parse with symbolic strings (len <= 3) answers "Unable to meet precondition" after 90 s. See DESIGN.md §5.',
 }
